@@ -194,7 +194,7 @@ MUL_PRIMS = {"dot", "matmul", "tensordot", "kron", "outer", "inner", "multiply"}
 SAME_PRIMS = {
     "reshape", "transpose", "moveaxis", "conj", "abs", "sum", "copy", "flip", "mean", "tensor", "to_numpy", "squeeze",
     "ravel", "unfold", "fold", "tensor_to_vec", "vec_to_tensor", "partial_unfold", "partial_fold", "partial_tensor_to_vec",
-    "partial_vec_to_tensor", "matricize", "trace", "diag", "cumsum", "max", "min", "norm", "index_update_value", "real", "clip",
+    "partial_vec_to_tensor", "matricize", "trace", "diag", "cumsum", "max", "min", "norm", "index_update_value", "real", "clip", "proximal_operator", "tensor_to_vec",
 }
 ADD_PRIMS = {"concatenate", "stack", "where", "maximum", "minimum"}
 DEG0_PRIMS = {"ones", "eye", "sign", "shape", "ndim", "context", "eps", "arange", "argmax", "argmin", "argsort", "len", "range", "int", "float", "ones_like"}
@@ -210,6 +210,7 @@ class Evaluator:
         self.problems: List[Tuple[ast.AST, str]] = []
         self.n_override = None  # N fixed by an enclosing `len(shape) == k` test
         self.splits = 0
+        self._tops: Dict[int, Top] = {}
         self.solver_prims: set = set()
         self.in_loop = 0
         self.watch: set = set()  # local names whose assignments are recorded in self.assigns
@@ -221,6 +222,14 @@ class Evaluator:
 
     # -- expressions -----------------------------------------------------------------
     def ev(self, e, env):
+        r = self._ev(e, env)
+        if isinstance(r, Deg) and isinstance(r.v, Top) and not r.v.lost and id(r.v) not in self._tops:
+            # the innermost expression that is a sum of terms of different degrees
+            self._tops[id(r.v)] = r.v
+            self.problems.append((e, r.v.why))
+        return r
+
+    def _ev(self, e, env):
         if e is None:
             return Other(None, True)
         if isinstance(e, ast.Constant):
@@ -490,6 +499,13 @@ class Evaluator:
             return Deg(got)
         if name in ("CPTensor", "TuckerTensor", "Parafac2Tensor", "TTTensor", "TRTensor") and len(c.args) == 1:
             return self.ev(c.args[0], env)
+        if name == "where" and len(c.args) == 3:
+            wa, wb = self.ev(c.args[1], env), self.ev(c.args[2], env)
+            # a scalar replacement value (clamp at epsilon, fill with 0 / 1): the generic entries decide
+            if isinstance(wa, Other) and isinstance(wb, Deg):
+                return Deg(wb.v)
+            if isinstance(wb, Other) and isinstance(wa, Deg):
+                return Deg(wa.v)
         if name == "where" and len(c.args) == 3 and isinstance(c.args[0], ast.Compare) and len(c.args[0].ops) == 1 and isinstance(c.args[0].ops[0], ast.Eq) and isinstance(c.args[0].comparators[0], ast.Constant) and c.args[0].comparators[0].value == 0 and src(c.args[0].left) == src(c.args[2]):
             # where(x == 0, <replacement>, x): x outside a set of measure zero
             return Deg(degree_of(self.ev(c.args[2], env)))
@@ -669,6 +685,16 @@ class Evaluator:
             v = env.get(t.left.id)
             if isinstance(v, Other) and isinstance(v.const, str):
                 return (v.const == t.comparators[0].value) == isinstance(t.ops[0], ast.Eq)
+        if isinstance(t, ast.Call) and is_name(t.func, "isinstance") and len(t.args) == 2 and isinstance(t.args[0], ast.Name) and t.args[0].id in env:
+            v = env[t.args[0].id]
+            types = {n.id for n in ast.walk(t.args[1]) if isinstance(n, ast.Name)} | {n.attr for n in ast.walk(t.args[1]) if isinstance(n, ast.Attribute)}
+            seq = bool(types & {"list", "tuple"})
+            if isinstance(v, Deg):
+                return False if types <= {"list", "tuple", "int", "float", "str", "dict", "CPTensor", "TuckerTensor", "TTTensor", "TRTensor", "Parafac2Tensor", "FactorizedTensor"} else None
+            if isinstance(v, ListV):
+                return True if seq else (False if types <= {"int", "float", "str", "dict"} else None)
+            if isinstance(v, Other) and v.is_none:
+                return False
         if isinstance(t, ast.Call) and is_name(t.func, "isinstance"):
             return False if s.startswith("isinstance(") and ("float" in s or "CPTensor" in s or "int" in s) else None
         if isinstance(t, ast.Name):
